@@ -21,7 +21,7 @@ From SV Require Import model.Graph model.GraphInv.
 From SV Require Import lib.Bytes lib.SqlExpr gen.GenSched model.Sched proofs.SchedProofs proofs.SchedPrims
   proofs.SchedSeq proofs.SchedTermination proofs.SchedSkel model.SchedDefer proofs.SchedDeferProofs.
 From SV Require Import model.SchedGraph proofs.SchedGraphCpl proofs.SchedGraphBelow
-  proofs.SchedGraphSim proofs.SchedGraphErase proofs.SchedGraphAcyclic proofs.SchedGraphMachine proofs.SchedGraphRefl.
+  proofs.SchedGraphSim proofs.SchedGraphErase proofs.SchedGraphAcyclic proofs.SchedGraphDelete proofs.SchedGraphMachine proofs.SchedGraphRefl.
 Import ListNotations.
 Open Scope N_scope.
 
@@ -580,16 +580,17 @@ Definition C10_graph_ops_preserve_FlagInv_full : Prop :=
     exists g', run_prims g (prims_of_op idf a s o) = Some g' /\ run_ok g (prims_of_op idf a s o) /\
                coupled idf s' g' /\ WF g' /\ FlagInv g' /\ J s'.
 
-(* Proved for the ten operations that neither create nor delete nodes: update_file_hashes, dispatch,
-   reset_for_rerun, exec_end (two update_file_hashes + mark_completed, with the defer branch and
-   _detach_created_steps), reset_to_pending, validate, mark_step_pending, hold, release,
-   reset_interrupted.  NOT proved here (their projection is validated on every real transaction by the
-   correspondence, and certified per transaction in C10_cached_equals_spec_at_every_decision_partial):
-   declare_static_files, define_step (new / partial recycle / full recycle), amend_step,
-   delete_detached. *)
+(* Proved for eleven of the fourteen operations (proven_op): the ten that neither create nor delete nodes --
+   update_file_hashes, dispatch, reset_for_rerun, exec_end (two update_file_hashes + mark_completed, with the defer
+   branch and _detach_created_steps), reset_to_pending, validate, mark_step_pending, hold, release, reset_interrupted
+   -- and delete_detached (proofs/SchedGraphDelete.v: one deletable node per round; its incoming edges, then its
+   row; C09's invariant holds after every round; then the stored hashes of the creators that lost a product).
+   NOT proved here (their projection is validated on every real transaction by the correspondence, and certified per
+   transaction in C10_cached_equals_spec_at_every_decision_partial): declare_static_files, define_step (new /
+   partial recycle / full recycle), amend_step -- the three that go through Trellis.create. *)
 Theorem C10_graph_ops_preserve_FlagInv_partial :
   forall idf, (forall a b, idf a = idf b -> a = b) ->
-  forall a o s g s', node_preserving o = true ->
+  forall a o s g s', proven_op o = true ->
     J s -> coupled idf s g -> FlagInv g -> step_op o s = Ok s' ->
     exists g', run_prims g (prims_of_op idf a s o) = Some g' /\ run_ok g (prims_of_op idf a s o) /\
                coupled idf s' g' /\ WF g' /\ FlagInv g' /\ J s'.
@@ -597,7 +598,7 @@ Proof.
   intros idf Hinj a o s g s' Hp HJ C HF E.
   destruct (step_op_t_ok idf a o s s' E) as [l El].
   unfold prims_of_op. rewrite El. cbn [trace_of].
-  destruct (sim_FlagInv idf Hinj s _ _ s' l g (step_op_t_sim_preserving idf Hinj a o s HJ Hp) El HJ C HF)
+  destruct (sim_FlagInv idf Hinj s _ _ s' l g (step_op_t_sim_proven idf Hinj a o s HJ Hp) El HJ C HF)
     as [HJ' [g' [Er [C' [O [Hwf HF']]]]]].
   exists g'. split; [exact Er|]. split; [exact O|]. split; [exact C'|]. split; [exact Hwf|]. split; [exact HF' | exact HJ'].
 Qed.
@@ -611,8 +612,8 @@ Proof. intros. apply init_minv. Qed.
 (* C10_cached_equals_spec_at_every_decision.  `reach idf s g`: the combined state (stored workflow s,
    scheduling snapshot g) is reached from a state satisfying the invariant (e.g. the fresh database) by
    any interleaving of
-     - transactions that neither create nor delete nodes (any arguments; rejected or crashed ones are
-       rolled back and change nothing),
+     - transactions of the proven class (proven_op: the ten that neither create nor delete nodes, and
+       delete_detached; any arguments; rejected or crashed ones are rolled back and change nothing),
      - declaring / deleting transactions whose projection is CERTIFIED: the primitive sequence satisfies
        its side conditions, lands on a snapshot coupled to the new state, and the new state satisfies J
        (three decidable conditions -- run_ok_b, coupled_b, inv_core_b && ntc_b -- that the correspondence
@@ -634,11 +635,11 @@ Theorem C10_cached_equals_spec_at_every_decision_partial :
       forall x, In x (dispatch_set g') <-> (In x (g_steps g') /\ eligible_spec g' x = true).
 Proof. exact cached_equals_spec_at_every_decision. Qed.
 
-(* the combined machine is never stuck on a transaction of the proven class: whatever the transaction
+(* the combined machine is never stuck on a transaction of the proven class (proven_op): whatever the transaction
    model does, the projected sequence is defined on the coupled snapshot *)
 Theorem C10_projection_defined :
   forall idf, (forall a b, idf a = idf b -> a = b) ->
-  forall a o s g s', reach idf s g -> node_preserving o = true -> step_op o s = Ok s' ->
+  forall a o s g s', reach idf s g -> proven_op o = true -> step_op o s = Ok s' ->
     exists l g', step_op_t idf a o s = Ok (s', l) /\ run_prims g l = Some g' /\ reach idf s' g'.
 Proof. exact reach_progress. Qed.
 
